@@ -677,13 +677,19 @@ def reaching_defs(cfg):
         cur = dict(IN[n.id])
         for name, _v in defs[n.id]:
             cur[name] = frozenset([n.id])
+        # along an exception edge the statement may not have completed: what reached it still reaches the handler
+        pre = dict(IN[n.id])
+        both = dict(cur)
+        for k, v in pre.items():
+            both[k] = both.get(k, frozenset()) | v
         for s, _l in n.succ:
             old = IN[s.id]
+            out = both if _l == 'exc' else cur
             if old is None:
-                new = dict(cur)
+                new = dict(out)
             else:
                 new = dict(old)
-                for k, v in cur.items():
+                for k, v in out.items():
                     new[k] = new.get(k, frozenset()) | v
             if new != old:
                 IN[s.id] = new
